@@ -208,11 +208,28 @@ pub fn main(args: &Args) -> std::io::Result<()> {
         {
             // IterWithAttributes::for_each_flattened: attributes of inserted points are lerped
             let mut got: Vec<(Point, Vec<f32>)> = Vec::new();
-            path.iter_with_attributes().for_each_flattened(tol, &mut |e| {
-                if let Event::Line { to, .. } = e {
+            // every edge starts where (and with the attributes with which) the previous one ended
+            let mut prev: Option<(Point, Vec<f32>)> = None;
+            let mut chain_ok = true;
+            path.iter_with_attributes().for_each_flattened(tol, &mut |e| match e {
+                Event::Begin { at } => prev = Some((at.0, at.1.to_vec())),
+                Event::Line { from, to } => {
+                    if prev.as_ref() != Some(&(from.0, from.1.to_vec())) {
+                        chain_ok = false;
+                    }
                     got.push((to.0, to.1.to_vec()));
+                    prev = Some((to.0, to.1.to_vec()));
                 }
+                Event::End { last, .. } => {
+                    if prev.as_ref() != Some(&(last.0, last.1.to_vec())) {
+                        chain_ok = false;
+                    }
+                }
+                _ => chain_ok = false,
             });
+            if !chain_ok {
+                st.fail(jobj(&[("what", jstr("IterWithAttributes::for_each_flattened: an edge does not start where, or with the attributes with which, the previous one ended")), ("input", jstr(&label))]));
+            }
             let want: Vec<(Point, Vec<f32>)> = expect.iter().filter_map(|c| if let Call::Line(p, a) = c { Some((*p, a.clone())) } else { None }).collect();
             if got != want {
                 st.fail(jobj(&[("what", jstr("IterWithAttributes::for_each_flattened differs from the flattened program")), ("input", jstr(&label))]));
